@@ -26,7 +26,16 @@ META = {
         "third sulfur is in range. The model is tied to the real functions (called in main.py's order, and through "
         "main_driver) on 2-6 cysteine structures with S-S distances at 2.5 A exactly, +-1 ulp, +-1e-3, +-0.5, in all "
         "chain/order/numbering layouts; an independent brute-force oracle checks mutuality, CYX/HG/charges and "
-        "reordering invariance on the real code."
+        "reordering invariance on the real code. Pipeline level (the property speaks of the RETURNED model): for every "
+        "stage list meeting an order obligation (detection not controlled by args.debump; behind it no second "
+        "detection and no heavy-atom mover other than one controlled by args.debump) and every stage semantics "
+        "respecting three frame conditions, the flags returned with --nodebump are detect(final sulfurs) "
+        "(C13_detection_sees_final_sulfurs); the obligation is discharged by vm_compute on the stage table "
+        "gen/stages.py translates from the current main.py (C13_ss_stage_order_table) and shown necessary "
+        "(C13_detection_before_repair_is_wrong). PARTIAL there: the frame conditions are modelled and tied at run "
+        "time only (cysteines whose SG record is missing, sulfur rebuilt by repair_heavy, --nodebump --noopt, "
+        "classification by the sulfur positions of the returned model); with debumping on the returned sulfurs may "
+        "differ from the ones detection saw and that case is not judged."
     ),
     "level_note": (
         "Trusted: Coq kernel+vm_compute; numpy.linalg.norm is an oracle (binary64 with FMA here; the float instance "
@@ -50,6 +59,9 @@ THEOREMS = [
     "C13_ss_third_sulfur_not_mutual",
     "C13_ss_free_unbuildable_named_CYX",
     "C13_nonvacuous",
+    "C13_detection_sees_final_sulfurs",
+    "C13_ss_stage_order_table",
+    "C13_detection_before_repair_is_wrong",
 ]
 ALLOWED_AXIOMS = []
 
@@ -1064,7 +1076,12 @@ def run(ctx):
         "or an exclusive pair; distinct by (pattern, class, per-unit hypothesis class, label scheme, processing order, "
         "mode, unit kinds)"
     )
-    ok = core.proof_stage(ctx, "C13", THEOREMS, ALLOWED_AXIOMS)
+    from harness.props import c01 as _c01
+
+    gen_ok = _c01.regenerate(ctx, "stages")  # Generated/Stages.v from the current pdb2pqr/main.py
+    ok = core.proof_stage(ctx, "C13", THEOREMS, ALLOWED_AXIOMS) if gen_ok else False
+    if not gen_ok:
+        ctx.obligations.extend(THEOREMS)
     rng = ctx.rng
     ngeo = 3000 if ctx.thorough else 700
     ndrv = 200 if ctx.thorough else 50
